@@ -414,6 +414,8 @@ func (k c15) Run(c *rt.Ctx) {
 			k.betweenBounds(c)
 			if i%2 == 0 {
 				k.betweenBare(c)
+			} else {
+				k.indexExpressions(c)
 			}
 		case 1:
 			k.namedFieldFixpoint(c)
@@ -423,6 +425,9 @@ func (k c15) Run(c *rt.Ctx) {
 			k.shownFilter(c)
 			if i%3 == 0 {
 				k.shownFolded(c)
+			}
+			if i%3 == 1 {
+				k.shownNegation(c)
 			}
 		default:
 			k.randomTree(c)
@@ -807,6 +812,109 @@ func (k c15) shownFolded(c *rt.Ctx) {
 	}
 	if fmt.Sprint(o1.Rows) != fmt.Sprint(o2.Rows) {
 		c.Violation("shown-filter-is-not-the-executed-filter", "rows differ (folded float)", det)
+	}
+}
+
+// indexExpressions: an expression as the index of a cascaded member access, written without
+// parentheses around it: the same tree as with them.
+func (k c15) indexExpressions(c *rt.Ctx) {
+	r := c.R
+	pairs := [][2]string{
+		{"json(value)['a']['b' + 'c'] = 'hit'", "json(value)['a'][('b' + 'c')] = 'hit'"},
+		{"json(value)['o'][lower('Y') + 'z'] != ''", "json(value)['o'][(lower('Y') + 'z')] != ''"},
+		{"json(value)['a']['b' + 'c']['d'] = 'x'", "json(value)['a'][('b' + 'c')]['d'] = 'x'"},
+		{"key ^= 'k' & json(value)['o']['y' + ''] = 'q'", "(key ^= 'k') & (json(value)['o'][('y' + '')] = 'q')"},
+		{"upper(json(value)['a']['x' + 'y' + 'z']) = 'V'", "upper(json(value)['a'][(('x' + 'y') + 'z')]) = 'V'"},
+	}
+	pr := pairs[r.Intn(len(pairs))]
+	c.Rec.Inc("index_expressions_without_parentheses")
+	parse := func(w string) (string, string) {
+		var canon, errs string
+		func() {
+			defer func() {
+				if x := recover(); x != nil {
+					errs = fmt.Sprint("panic: ", x)
+				}
+			}()
+			stmt, err := kvql.NewParser("select * where " + w).Parse()
+			if err != nil {
+				errs = err.Error()
+				return
+			}
+			canon = canonAST(stmt.(*kvql.SelectStmt).Where.Expr)
+		}()
+		return canon, errs
+	}
+	bare, e1 := parse(pr[0])
+	full, e2 := parse(pr[1])
+	c.Rec.Eval(2)
+	if e2 != "" {
+		c.Rec.NotJudged("fully parenthesised index expression is refused: " + firstWords(stripPos(e2)))
+		return
+	}
+	if e1 != "" {
+		c.Violation("well-typed-expression-rejected", "index expression without parentheses / "+firstWords(stripPos(e1)), func() rt.D {
+			return rt.D{"query": "select * where " + pr[0], "error": e1, "accepted_with_parentheses": pr[1]}
+		})
+		return
+	}
+	if bare != full {
+		c.Violation("tree-differs-from-documented-precedence", "index expression without parentheses / "+c15FirstDiff(full, bare), func() rt.D {
+			return rt.D{"query": "select * where " + pr[0], "parsed_tree": bare, "tree_with_parentheses": full}
+		})
+	}
+}
+
+// shownNegation: a constant under ! as the whole filter: what is shown is what runs.
+func (k c15) shownNegation(c *rt.Ctx) {
+	r := c.R
+	rec := c.Rec
+	pairs := []refstore.Pair{{K: "k1", V: "1"}, {K: "k2", V: "2"}, {K: "k3", V: "3"}}
+	w := []string{"!(1 = 2)", "!(1 = 1)", "!('a' = 'a' | 2 < 1)", "!(2 > 1 & 'a' = 'b')", "!(1 = 2) | key = 'k9'", "!(is_int('x'))", "!(1 = 1) & key ^= 'k'"}[r.Intn(7)]
+	mode := drive.Mode{Batch: r.Bool(), Size: 2, Cache: true}
+	q1 := "select key, value where " + w
+	o1 := drive.Run(q1, refstore.New(pairs), mode)
+	rec.Eval(1)
+	if o1.Status() != "ok" {
+		rec.NotJudged("statement for the shown-filter comparison did not run: " + firstWords(stripPos(o1.ErrText())))
+		return
+	}
+	shown, kind := "", ""
+	if len(o1.Explain) > 0 {
+		last := o1.Explain[len(o1.Explain)-1]
+		if i := strings.Index(last, "FullScanPlan{Filter = '"); i >= 0 && strings.HasSuffix(last, "'}") {
+			shown, kind = last[i+len("FullScanPlan{Filter = '"):len(last)-2], "full"
+		} else if strings.HasPrefix(last, "EmptyResultPlan") {
+			kind = "empty"
+		}
+	}
+	rec.Inc("shown_negations_of_constants")
+	if kind == "empty" {
+		if len(o1.Rows) != 0 {
+			c.Violation("shown-filter-is-not-the-executed-filter", "rows from a plan shown as empty", func() rt.D { return rt.D{"query": q1, "explain": o1.Explain, "rows": fmt.Sprint(o1.Rows)} })
+		}
+		return
+	}
+	if shown == "" {
+		rec.NotJudged("no full-scan line with a filter in Explain()")
+		return
+	}
+	q2 := "select key, value where " + shown
+	o2 := drive.Run(q2, refstore.New(pairs), mode)
+	rec.Eval(1)
+	det := func() rt.D {
+		return rt.D{"query": q1, "explain": o1.Explain, "shown_filter": shown, "second_query": q2, "rows": fmt.Sprint(o1.Rows), "rows_of_shown_filter": fmt.Sprint(o2.Rows), "second_outcome": outcomeBrief(o2)}
+	}
+	if o2.Status() != "ok" {
+		if o2.PlanErr != nil && (shown == "true" || shown == "false" || strings.Contains(shown, "& true") || strings.Contains(shown, "| false") || strings.Contains(shown, "(true)") || strings.Contains(shown, "(false)")) {
+			rec.NotJudged("shown filter holds a Boolean literal the checker refuses as an operand (register B21)")
+			return
+		}
+		c.Violation("shown-filter-does-not-run", firstWords(stripPos(o2.ErrText())), det)
+		return
+	}
+	if fmt.Sprint(o1.Rows) != fmt.Sprint(o2.Rows) {
+		c.Violation("shown-filter-is-not-the-executed-filter", "rows differ (constant under !)", det)
 	}
 }
 
